@@ -292,3 +292,13 @@ def jobkill_scenarios():
                                                                 [XP("xpB", [TOK("t", 1), J("a", 1, tok=[("t", 1)]), J("b", 2, [("a", "ups")], tok=[("t", 1)])])]],
                   fine=True, kill=True, kill_pid="job:j1", expect_job_failure=[1], markers_from_other_process=True))
     return out
+
+
+def thread_scenarios():
+    """Two user threads of one process submit identical configurations to the same experiment at the same time."""
+    out = []
+    body = [{"op": "thread", "var": "t", "body": [J("a2", 1)]}, J("a", 1), {"op": "join", "var": "t"}, {"op": "same", "a": "a", "b": "a2"}, J("b", 2, [("a", "up")])]
+    out.append(sc("threads:same-job", "threads", [[XP("xp", body)]], dup_threads=True))
+    body = [J("u", 5), {"op": "thread", "var": "t", "body": [J("a2", 1, [("u", "up")])]}, J("a", 1, [("u", "up")]), {"op": "join", "var": "t"}, {"op": "same", "a": "a", "b": "a2"}]
+    out.append(sc("threads:same-dependent", "threads", [[XP("xp", body)]], dup_threads=True))
+    return out
